@@ -30,6 +30,7 @@ CONSTANTS
     Modes,        \* "inline" (constants inside the system) / "named" (constants passed as parameters)
     EqTemplates,  \* equilibria for the acceptance part
     EqWrongs,
+    TSources,     \* where the temperature comes from: subset of {"param", "subs", "ramp"}
     Laws,         \* rate-constant laws of a generated system: "mass", "arrhenius", "eyring", "alt" (cycling)
     CallKinds,    \* kinds of calls made on one solver object (see CallVar)
     MaxCalls      \* length of the call history of a solver object
@@ -123,17 +124,39 @@ LawOf(rec) == IF "law" \in DOMAIN rec THEN rec.law ELSE "mass"
 TempSI == <<310, 1>>
 EASI == <<<<620, 1>>, <<155, 1>>, <<930, 1>>, <<310, 1>>>>
 TempQ == Qty(NFromQ(TempSI), <<[n |-> "K", p |-> 1]>>)
+(* The environment of an evaluation: where the temperature comes from ("param": a parameter of the call,   *)
+(* "subs": a constant substitution, "ramp": the substitution T0 + dTdt * time, read at the evaluation time  *)
+(* t1 - the three give the same temperature TempSI there), and the density and dose rate a radiolytic       *)
+(* yield is multiplied with.                                                                                 *)
+T0SI == <<300, 1>>
+DTSI == <<80, 1>>                     \* K/s
+DensSI == <<998, 1>>                  \* kg/m3
+DoseSI == <<1, 2>>                    \* Gy/s
+DefaultEnv == [tsrc |-> "param", T0 |-> Qty(NFromQ(T0SI), <<[n |-> "K", p |-> 1]>>),
+               dTdt |-> Qty(NFromQ(DTSI), <<[n |-> "K", p |-> 1], [n |-> "s", p |-> -1]>>),
+               density |-> Qty(NFromQ(DensSI), <<[n |-> "kg", p |-> 1], [n |-> "m", p |-> -3]>>),
+               doserate |-> Qty(NFromQ(DoseSI), <<[n |-> "Gy", p |-> 1], [n |-> "s", p |-> -1]>>)]
+EnvOf == IF "env" \in DOMAIN cond THEN cond.env ELSE DefaultEnv
+DensityDim == D(-3, 1, 0, 0, 0, 0)
+DoserateDim == D(2, 0, -3, 0, 0, 0)
+YieldDim == D(-2, -1, 2, 0, 0, 1)     \* amount / energy
 StdConc == Qty(NOne, <<[n |-> "molar", p |-> 1]>>)
 PerKTimeDim == VAdd(VMul(Th1, -1), VMul(T1, -1))
 \* the dimension the constant k of a record must have
-KParamDim(rec) == IF LawOf(rec) = "eyring" THEN PerKTimeDim ELSE RateDim(Order(rec.rx))
+\*   "radiolytic": rate = G * density * doserate, whatever the concentrations (k = G, a yield in amount/energy)
+KParamDim(rec) == IF LawOf(rec) = "eyring" THEN PerKTimeDim
+                  ELSE IF LawOf(rec) = "radiolytic" THEN YieldDim ELSE RateDim(Order(rec.rx))
 \* the rational part of the effective rate constant, in SI
 PreSI(rec) == IF LawOf(rec) = "eyring"
               THEN NMul(NMul(SIValue(rec.k), SIValue(TempQ)), NPow(SIValue(StdConc), 1 - Order(rec.rx)))
+              ELSE IF LawOf(rec) = "radiolytic"
+              THEN NMul(NMul(SIValue(rec.k), SIValue(EnvOf.density)), SIValue(EnvOf.doserate))
               ELSE SIValue(rec.k)
-ExpoOf(rec) == IF LawOf(rec) = "mass" THEN NZero ELSE NMul(SIValue(rec.ea), NInv(SIValue(TempQ)))
+HasExp(rec) == LawOf(rec) \in {"arrhenius", "eyring"}
+ExpoOf(rec) == IF HasExp(rec) THEN NMul(SIValue(rec.ea), NInv(SIValue(TempQ))) ELSE NZero
+ConcPart(rec, val) == IF LawOf(rec) = "radiolytic" THEN NOne ELSE NProdOver(1, rec.rx.reac, val)
 \* the rate of reaction rec directly in SI (without the factor exp(-ExpoOf(rec)))
-RateSI(rec, conc) == NMul(PreSI(rec), NProdOver(1, rec.rx.reac, [s \in SubstSet |-> SIValue(conc[s])]))
+RateSI(rec, conc) == NMul(PreSI(rec), ConcPart(rec, [s \in SubstSet |-> SIValue(conc[s])]))
 \* the same rate through a registry
 TimeUnit(reg) == RegUnit(reg, T1)
 ConcUnit(reg) == RegUnit(reg, ConcDim)
@@ -141,11 +164,14 @@ KIn(reg, rec) == MagInU(rec.k, RegUnit(reg, KParamDim(rec)))
 TIn(reg, q) == MagInU(q, RegUnit(reg, Th1))
 PreVia(reg, rec) == IF LawOf(rec) = "eyring"
                     THEN NMul(NMul(KIn(reg, rec), TIn(reg, TempQ)), NPow(MagInU(StdConc, RegUnit(reg, ConcDim)), 1 - Order(rec.rx)))
+                    ELSE IF LawOf(rec) = "radiolytic"
+                    THEN NMul(NMul(KIn(reg, rec), MagInU(EnvOf.density, RegUnit(reg, DensityDim))),
+                              MagInU(EnvOf.doserate, RegUnit(reg, DoserateDim)))
                     ELSE KIn(reg, rec)
 CIn(reg, q) == MagInU(q, ConcUnit(reg))
 BackScale(reg) == VSub(ConcUnit(reg).scale, TimeUnit(reg).scale)
 RateVia(reg, rec, conc) ==
-    NShift(NMul(PreVia(reg, rec), NProdOver(1, rec.rx.reac, [s \in SubstSet |-> CIn(reg, conc[s])])), BackScale(reg))
+    NShift(NMul(PreVia(reg, rec), ConcPart(rec, [s \in SubstSet |-> CIn(reg, conc[s])])), BackScale(reg))
 \* d[s]/dt as the list of its terms (coefficient, reaction rate in SI); their sum is the rate
 Terms(s) == LET js == SelectSeq([j \in 1..Len(sys) |-> j], LAMBDA j : Net(sys[j].rx, s) # 0)
             IN  [i \in 1..Len(js) |-> [c |-> Net(sys[js[i]].rx, s), r |-> RateSI(sys[js[i]], cond.conc), x |-> ExpoOf(sys[js[i]])]]
@@ -164,18 +190,26 @@ KLog(a, e) == khist' = Append(khist, [a |-> a, e |-> e])
 
 IsRx(rx) == \A s \in SubstSet : rx.reac[s] \in Nat /\ rx.prod[s] \in Nat
 (* acceptance of one rate constant *)
+(*   kform: the constant is a plain quantity or a quantity with an uncertainty                            *)
+(*   how:   "init" (the constructor with its default checks: accepted = constructed), "method" (made with *)
+(*          checks switched off, then asked check_consistent_units(): accepted = the answer), "nochecks"  *)
+(*          (made with checks switched off: always constructed, whatever the dimension)                   *)
+KForms == {"quantity", "uncertain"}
+Hows == {"init", "method", "nochecks"}
 E_RateAccept(rx, kux) == [accept |-> AcceptsRate(Order(rx), UnitOf(kux)), order |-> Order(rx)]
-RateAccept(rx, kux) ==
-    /\ kstage = "start" /\ IsRx(rx) /\ IsUExpr(kux)
-    /\ KLog([op |-> "rate_accept", rx |-> rx, kux |-> kux, mag |-> <<3, 2>>], E_RateAccept(rx, kux))
+RateAcceptV(rx, kux, kform, how) ==
+    /\ kstage = "start" /\ IsRx(rx) /\ IsUExpr(kux) /\ kform \in KForms /\ how \in Hows
+    /\ KLog([op |-> "rate_accept", rx |-> rx, kux |-> kux, mag |-> <<3, 2>>, kform |-> kform, how |-> how], E_RateAccept(rx, kux))
     /\ kstage' = "done" /\ UNCHANGED <<sys, cond, conf, vars>>
+RateAccept(rx, kux) == RateAcceptV(rx, kux, "quantity", "init")
 
 (* acceptance of one equilibrium constant: a wrong dimension must be refused *)
 E_KAccept(rx, kux) == [dnu |-> DNu(rx), must_raise |-> ~KDimOK(DNu(rx), UnitOf(kux))]
-KAccept(rx, kux) ==
-    /\ kstage = "start" /\ IsRx(rx) /\ IsUExpr(kux)
-    /\ KLog([op |-> "k_accept", rx |-> rx, kux |-> kux, mag |-> <<3, 2>>], E_KAccept(rx, kux))
+KAcceptV(rx, kux, kform, how) ==
+    /\ kstage = "start" /\ IsRx(rx) /\ IsUExpr(kux) /\ kform \in KForms /\ how \in Hows
+    /\ KLog([op |-> "k_accept", rx |-> rx, kux |-> kux, mag |-> <<3, 2>>, kform |-> kform, how |-> how], E_KAccept(rx, kux))
     /\ kstage' = "done" /\ UNCHANGED <<sys, cond, conf, vars>>
+KAccept(rx, kux) == KAcceptV(rx, kux, "quantity", "init")
 
 (* the system as written: reaction j = [rx, k] with its rate constant a quantity in its own unit *)
 SetSystem(name, recs) ==
@@ -198,11 +232,14 @@ Build ==
     /\ UNCHANGED <<sys, cond, conf, vars>>
 
 (* the conditions as written: every concentration and the time points are quantities in their own units *)
-SetConditions(concQ, t0Q, t1Q) ==
+SetConditionsE(concQ, t0Q, t1Q, env) ==
     /\ kstage = "built" /\ UnitQ(t0Q).dim = T1 /\ UnitQ(t1Q).dim = T1
     /\ \A s \in SubstSet : IsUExpr(concQ[s].ux) /\ UnitQ(concQ[s]).dim = ConcDim
-    /\ cond' = [conc |-> concQ, t0 |-> t0Q, t1 |-> t1Q]
+    /\ env.tsrc \in {"param", "subs", "ramp"} /\ UnitQ(env.T0).dim = Th1 /\ UnitQ(env.dTdt).dim = VAdd(Th1, VMul(T1, -1))
+    /\ UnitQ(env.density).dim = DensityDim /\ UnitQ(env.doserate).dim = DoserateDim
+    /\ cond' = [conc |-> concQ, t0 |-> t0Q, t1 |-> t1Q, env |-> env]
     /\ kstage' = "conditions" /\ UNCHANGED <<sys, conf, khist, vars>>
+SetConditions(concQ, t0Q, t1Q) == SetConditionsE(concQ, t0Q, t1Q, DefaultEnv)
 
 (* the rates obtained in a registry, read back in SI, and the units reported for the parameters *)
 E_PhysicalRate(reg) ==
@@ -211,6 +248,12 @@ E_PhysicalRate(reg) ==
       kin |-> [j \in 1..Len(sys) |-> KIn(reg, sys[j])],
       ein |-> [j \in 1..Len(sys) |-> IF LawOf(sys[j]) = "mass" THEN NZero ELSE TIn(reg, sys[j].ea)],
       tin |-> TIn(reg, TempQ), t_unit |-> RegUnit(reg, Th1),
+      \* density and dose rate are parameters of every call when a radiolytic yield is present
+      din |-> MagInU(EnvOf.density, RegUnit(reg, DensityDim)), d_unit |-> RegUnit(reg, DensityDim),
+      rin |-> MagInU(EnvOf.doserate, RegUnit(reg, DoserateDim)), r_unit |-> RegUnit(reg, DoserateDim),
+      \* the rate of every single reaction (rate_exprs_cb), same convention as the terms
+      rrates |-> [j \in 1..Len(sys) |-> [c |-> 1, r |-> RateSI(sys[j], cond.conc), x |-> ExpoOf(sys[j])]],
+      tev |-> MagInU(cond.t1, TimeUnit(reg)),
       cin |-> [s \in SubstSet |-> CIn(reg, cond.conc[s])],
       p_units |-> [j \in 1..Len(sys) |-> RegUnit(reg, KParamDim(sys[j]))],
       \* evaluating, validating or solving is an observation: the constants the caller holds are still
@@ -224,30 +267,39 @@ Used == { s \in SubstSet : { j \in 1..Len(sys) : sys[j].rx.reac[s] > 0 \/ sys[j]
 \* how reaction j gives its constants to the ODE system in a mode: "inline" (quantities inside the rate
 \* expression), "named" (unique keys, passed as parameters with every call), "subs" (unique keys, values
 \* given once as substitutions), "mixed" (odd reactions named, even ones inline)
+QOut2(q) == [mag |-> q.mag, ux |-> q.ux]
 AllModes == {"inline", "named", "subs", "mixed"}
 IsNamed(j, mode) == mode = "named" \/ (mode = "mixed" /\ j % 2 = 1)
 \* (written with a set, not with \E: inside an action TLC would branch on every witness)
 Buildable(mode) == \A s \in Used : { j \in 1..Len(sys) :
                        Net(sys[j].rx, s) # 0 /\ (Order(sys[j].rx) > 0 \/ IsNamed(j, mode) \/ LawOf(sys[j]) # "mass") } # {}
+EnvOut == [tsrc |-> EnvOf.tsrc, T0 |-> QOut2(EnvOf.T0), dTdt |-> QOut2(EnvOf.dTdt),
+           density |-> QOut2(EnvOf.density), doserate |-> QOut2(EnvOf.doserate)]
 PhysicalRate(reg, mode) ==
     /\ kstage = "conditions" /\ IsReg(reg) /\ mode \in AllModes /\ Buildable(mode)
     /\ conf' = [name |-> conf.name, reg |-> reg, mode |-> mode]
     /\ KLog([op |-> "rates", reg |-> reg, mode |-> mode, laws |-> [j \in 1..Len(sys) |-> LawOf(sys[j])],
-              temp |-> [mag |-> TempQ.mag, ux |-> TempQ.ux]], E_PhysicalRate(reg))
+              temp |-> [mag |-> TempQ.mag, ux |-> TempQ.ux], env |-> EnvOut], E_PhysicalRate(reg))
     /\ kstage' = "rates" /\ UNCHANGED <<sys, cond, vars>>
 
 (* output rescaling and a two-point integration with quantities in and out *)
 RECURSIVE LawTag(_)
 LawTag(j) == IF j > Len(sys) THEN "" ELSE "/" \o LawOf(sys[j]) \o LawTag(j + 1)
+\* (an output unit that is not given - written <<>> - means the registry's own unit)
+OutC(oc) == IF oc = <<>> THEN ConcUnit(conf.reg) ELSE UnitOf(oc)
+OutT(ot) == IF ot = <<>> THEN TimeUnit(conf.reg) ELSE UnitOf(ot)
 E_Output(oc, ot) ==
-    [ y0 |-> [s \in SubstSet |-> MagIn(cond.conc[s], oc)],
-      x1 |-> MagIn(cond.t1, ot),
-      cunit |-> UnitOf(oc), tunit |-> UnitOf(ot),
+    [ y0 |-> [s \in SubstSet |-> MagInU(cond.conc[s], OutC(oc))],
+      x1 |-> MagInU(cond.t1, OutT(ot)),
+      cunit |-> OutC(oc), tunit |-> OutT(ot),
+      \* the magnitudes are demanded only relative to a unit that was asked for (a registry entry such as
+      \* 60*s is not a unit a result can be expressed "in"; the physical value is demanded in any case)
+      cmag |-> (oc # <<>>), tmag |-> (ot # <<>>),
       exact |-> AllZeroOrder,
       yend |-> IF AllZeroOrder THEN [s \in SubstSet |-> EndTerms(s)] ELSE [s \in SubstSet |-> <<>>],
-      group |-> conf.name \o LawTag(1) ]       \* one physical problem = one system with one assignment of laws
+      group |-> conf.name \o LawTag(1) \o "/" \o EnvOf.tsrc ]       \* one physical problem = one system with one assignment of laws
 Output(oc, ot) ==
-    /\ kstage = "rates" /\ IsUExpr(oc) /\ IsUExpr(ot) /\ UnitOf(oc).dim = ConcDim /\ UnitOf(ot).dim = T1
+    /\ kstage = "rates" /\ IsUExpr(oc) /\ IsUExpr(ot) /\ OutC(oc).dim = ConcDim /\ OutT(ot).dim = T1
     /\ KLog([op |-> "output", oc |-> oc, ot |-> ot], E_Output(oc, ot))
     /\ kstage' = "done" /\ UNCHANGED <<sys, cond, conf, vars>>
 
@@ -304,7 +356,16 @@ TimeSeq == <<"s", "min", "h", "ms">>
 Idx(seq, x) == CHOOSE i \in 1..Len(seq) : seq[i] = x
 \* reaction j takes the (j-1)-th successor of the chosen units, so that constants of one system differ
 LawSeq == <<"mass", "arrhenius", "eyring">>
-LawFor(plan, j) == IF plan = "alt" THEN Cyc(LawSeq, j) ELSE plan
+\* plans: one law for every reaction, "alt" (cycling), "rad" (the first reaction is a radiolytic source, the rest mass action)
+LawFor(plan, j) == IF plan = "alt" THEN Cyc(LawSeq, j) ELSE IF plan = "rad" THEN (IF j = 1 THEN "radiolytic" ELSE "mass") ELSE plan
+YieldUx == <<<<F("per100eV", 1)>>, <<F("umol_per_J", 1)>>, <<F("mol", 1), F("J", -1)>>, <<F("mmol", 1), F("kilojoule", -1)>>>>
+GSI == <<5, 2>>                       \* mol/J  (a huge yield, so that the source term is comparable with the other rates)
+EnvFor(plan, tsrc) ==
+    [tsrc |-> tsrc, T0 |-> Written(T0SI, <<F("K", 1)>>),
+     dTdt |-> Written(DTSI, <<F("K", 1), F(Cyc(TimeSeq, plan + 1), -1)>>),
+     density |-> Written(DensSI, Cyc(<<<<F("g", 1), F("cm", -3)>>, <<F("kg", 1), F("m", -3)>>, <<F("kg", 1), F("dm3", -1)>>>>, plan + 1)),
+     doserate |-> Written(DoseSI, Cyc(<<<<F("Gy", 1), F("min", -1)>>, <<F("kilogray", 1), F("h", -1)>>, <<F("Gy", 1), F("s", -1)>>>>, plan + 1))]
+ASSUME QAdd(T0SI, QMul(DTSI, T1SI)) = TempSI
 KuxFor(name, tn, cn, wrong) ==
     [j \in 1..Len(SysLib[name]) |->
         LET order == Order(RxLib[SysLib[name][j]])
@@ -314,23 +375,28 @@ KuxFor(name, tn, cn, wrong) ==
 KuxLaw(name, tn, cn, wrong, plan) ==
     [j \in 1..Len(SysLib[name]) |->
         IF LawFor(plan, j) = "eyring" THEN <<F("K", -1), F(Cyc(TimeSeq, Idx(TimeSeq, tn) + j - 1), -1)>>
+        ELSE IF LawFor(plan, j) = "radiolytic" THEN Cyc(YieldUx, Idx(TimeSeq, tn) + Idx(ConcKeys, cn))
         ELSE KuxFor(name, tn, cn, wrong)[j]]
 CuxFor(plan) == [s \in SubstSet |-> ConcUx[Cyc(ConcKeys, plan + Idx(Subst, s))]]
 
-GenRateAccept == \E tpl \in DOMAIN RxLib, tn \in KTimes, cn \in KConcs, w \in Wrongs :
-                     "accept" \in Modes /\ RateAccept(RxLib[tpl], WrongUx(w, Order(RxLib[tpl]), cn, tn))
-GenKAccept == \E tpl \in EqTemplates, cn \in KConcs, w \in EqWrongs :
-                     "accept" \in Modes /\ KAccept(RxLib[tpl], WrongKUx(w, DNu(RxLib[tpl]), cn))
+GenRateAccept == \E tpl \in DOMAIN RxLib, tn \in KTimes, cn \in KConcs, w \in Wrongs, kf \in KForms, how \in Hows :
+                     "accept" \in Modes /\ (how # "init" => tn = "s" /\ kf = "quantity") /\ (kf = "uncertain" => tn = "s")
+                     /\ RateAcceptV(RxLib[tpl], WrongUx(w, Order(RxLib[tpl]), cn, tn), kf, how)
+GenKAccept == \E tpl \in EqTemplates, cn \in KConcs, w \in EqWrongs, kf \in KForms, how \in Hows :
+                     "accept" \in Modes /\ (how # "init" => kf = "quantity")
+                     /\ KAcceptV(RxLib[tpl], WrongKUx(w, DNu(RxLib[tpl]), cn), kf, how)
 GenSetSystem == \E name \in Systems, tn \in KTimes, cn \in KConcs, w \in (Wrongs \cap {"none", "conc-", "time2"}), plan \in Laws :
                      (w # "none" => plan = "mass") /\
                      SetSystem(name, [j \in 1..Len(SysLib[name]) |->
-                                        [rx |-> RxLib[SysLib[name][j]], k |-> Written(KSI[j], KuxLaw(name, tn, cn, w, plan)[j]),
+                                        [rx |-> RxLib[SysLib[name][j]],
+                                         k |-> Written(IF LawFor(plan, j) = "radiolytic" THEN GSI ELSE KSI[j], KuxLaw(name, tn, cn, w, plan)[j]),
                                          law |-> LawFor(plan, j), ea |-> Written(EASI[j], <<F("K", 1)>>)]])
-GenSetConditions == \E plan \in CPlans, tn \in TUnits :
-                     (Modes \ {"accept", "solver"}) # {} /\ SetConditions([s \in SubstSet |-> Written(CSI[s], CuxFor(plan)[s])],
-                                   Written(<<0, 1>>, <<F(tn, 1)>>), Written(T1SI, <<F(tn, 1)>>))
+GenSetConditions == \E plan \in CPlans, tn \in TUnits, tsrc \in TSources :
+                     (Modes \ {"accept", "solver"}) # {} /\ (tsrc # "param" => ~AllMass)
+                     /\ SetConditionsE([s \in SubstSet |-> Written(CSI[s], CuxFor(plan)[s])],
+                                       Written(<<0, 1>>, <<F(tn, 1)>>), Written(T1SI, <<F(tn, 1)>>), EnvFor(plan, tsrc))
 GenPhysicalRate == \E reg \in KRegs, mode \in (Modes \ {"accept", "solver"}) : PhysicalRate(reg, mode)
-GenOutput == \E o \in Outs : Output(ConcUx[o[1]], <<F(o[2], 1)>>)
+GenOutput == \E o \in Outs : Output(IF o[1] = "none" THEN <<>> ELSE ConcUx[o[1]], IF o[2] = "none" THEN <<>> ELSE <<F(o[2], 1)>>)
 
 \* calls: the physical problem of the module ("good"), the same problem written in other units
 \* ("good2"), another problem in the units of "good" ("goodval"), and calls in which one constant has a
@@ -367,7 +433,8 @@ RegistryIndependent ==
         \A reg \in KRegs : \A j \in 1..Len(sys) : RateVia(reg, sys[j], cond.conc) = RateSI(sys[j], cond.conc)
 \* the written problem is the physical problem
 WrittenIsPhysical ==
-    /\ (sys # <<>> /\ AllAccepted) => \A j \in 1..Len(sys) : SIValue(sys[j].k) = NFromQ(KSI[j])
+    /\ (sys # <<>> /\ AllAccepted) => \A j \in 1..Len(sys) :
+            SIValue(sys[j].k) = NFromQ(IF LawOf(sys[j]) = "radiolytic" THEN GSI ELSE KSI[j])
     /\ ("conc" \in DOMAIN cond) => \A s \in SubstSet : SIValue(cond.conc[s]) = NFromQ(CSI[s])
 \* a constant of the wrong dimension makes the unitless rate depend on the registry: this is why it must be refused
 RefusedOnlyIfWrongDimension ==
